@@ -26,7 +26,7 @@ fn info(tier: Tier) -> CheckInfo {
         id: "C11",
         level: "exploration",
         rule: format!(
-            "Tier {}: a universe of 7 nodes on public IPs (secure+insecure on one IP; three secure ids on one IP, two sharing the 21-bit prefix; two insecure nodes with EQUAL ids on different IPs; ids tying with the target on the first differing byte; an id equal to the target). Every subset in every insertion order (sum of |s|! = 13700 sequences) is pushed through ClosestNodes::add for 4 targets and through RoutingTable::add for 3 own ids x 4 targets. For K-truncation: 21..24 distinct-IP nodes (mixed secure/insecure) under identity, reverse, every rotation and every adjacent transposition. take_until_secure over size-estimate in {{0,1,20,1000,usize::MAX}} x subnets in {{0,1,5,64,usize::MAX}}. Oracle: brute-force sort by (secure first, XOR distance) and the same-IP admission rule replayed in insertion order. Distinct = distinct (insertion sequence, target[, own id]).",
+            "Tier {}: a universe of 8 nodes on public IPs (secure+insecure on one IP; three secure ids on one IP, two sharing the 21-bit prefix; two insecure nodes with EQUAL ids on different IPs; a third insecure id sharing its first 17 bytes with them; ids tying with the target on the first differing byte; an id equal to the target). Every subset in every insertion order (sum of |s|! = 109601 sequences; subsets of up to 5 nodes = 8801 sequences in quick) is pushed through ClosestNodes::add for 4 targets and through RoutingTable::add for 3 own ids x 4 targets. For K-truncation: 21..24 distinct-IP nodes (mixed secure/insecure) under identity, reverse, every rotation and every adjacent transposition. take_until_secure over size-estimate in {{0,1,20,1000,usize::MAX}} x subnets in {{0,1,5,64,usize::MAX}}. Oracle: brute-force sort by (secure first, XOR distance) and the same-IP admission rule replayed in insertion order. Distinct = distinct (insertion sequence, target[, own id]).",
             tier.name()
         ),
         assumptions: vec![
@@ -77,10 +77,14 @@ fn universe() -> (Vec<N>, Vec<Id20>) {
     let n4 = N { id: bep42_id(ip_b, &fill(0x44), 2), addr: SocketAddrV4::new(ip_b, 2002) };
     let n5 = N { id: i5, addr: SocketAddrV4::new(ip_c, 3000) };
     let n6 = N { id: i5, addr: SocketAddrV4::new(ip_d, 4000) };
-    let _ = i7;
-    let u = vec![n0, n1, n2, n3, n4, n5, n6];
+    // shares its first 17 bytes with n5/n6 (same security class): only the low bytes order them
+    let mut i8 = i5;
+    i8[17] ^= 0x04;
+    let ip_e = Ipv4Addr::new(33, 44, 55, 66);
+    let n7 = N { id: i8, addr: SocketAddrV4::new(ip_e, 5000) };
+    let u = vec![n0, n1, n2, n3, n4, n5, n6, n7];
     assert!(u[0].secure() && !u[1].secure() && u[2].secure() && u[3].secure() && u[4].secure());
-    assert!(!u[5].secure() && !u[6].secure());
+    assert!(!u[5].secure() && !u[6].secure() && !u[7].secure());
     assert_eq!(u[2].prefix21(), u[3].prefix21());
     assert_ne!(u[2].prefix21(), u[4].prefix21());
     assert_ne!(u[0].prefix21(), u[1].prefix21());
@@ -365,8 +369,8 @@ fn check_truncation(out: &mut Partial) {
 fn run(tier: Tier, _s: usize, _n: usize, _seed: u64) -> Partial {
     let chunks = super::cores();
     let (u, targets) = universe();
-    let usize_n = if tier.is_quick() { 6 } else { 7 };
-    let seqs = sequences(7)
+    let usize_n = if tier.is_quick() { 5 } else { 8 };
+    let seqs = sequences(8)
         .into_iter()
         .filter(|s| tier == Tier::Thorough || s.len() <= usize_n)
         .collect::<Vec<_>>();
@@ -419,7 +423,7 @@ fn replay(v: &Value) -> Result<Option<Violation>, String> {
         Some("closest_nodes") => {
             let s = seq("seq");
             let t = getid("target")?;
-            if s.iter().any(|i| *i >= 7) {
+            if s.iter().any(|i| *i >= 8) || s.len() > 8 {
                 let n = s.len();
                 check_closest_nodes(&s, &big_universe(n), &t, &mut out);
             } else {
@@ -433,7 +437,7 @@ fn replay(v: &Value) -> Result<Option<Violation>, String> {
                 Ok(t) => vec![t],
                 Err(_) => targets.clone(),
             };
-            if s.iter().any(|i| *i >= 7) {
+            if s.iter().any(|i| *i >= 8) || s.len() > 8 {
                 let n = s.len();
                 check_table(&s, &big_universe(n), &own, &ts, &mut out);
             } else {
